@@ -403,7 +403,7 @@ MONITORS = {
     "C01": mon_c01, "C05": mon_c05, "C02": mon_c02, "C12": mon_c12, "C10": mon_c10, "C11": mon_c11,
     "C08": mon_c08, "C19": mon_c19, "C16": mon_c16,
     "C13": lambda h: mon_ledger(h, True, True, only_kinds=("sendto", "sendoptto")),
-    "C14": lambda h: mon_ledger(h, True, True, only_kinds=("trysend", "trysendopt", "trysendrt", "trysendoptrt")),
+    "C14": lambda h: mon_ledger(h, True, True, only_kinds=("trysend", "trysendopt", "trysendrt", "trysendoptrt")) + mon_c19(h),
     "C15": lambda h: mon_ledger(h, True, True, only_kinds=("mksend",)),
     "C09": lambda h: mon_ledger(h, True, True) + mon_c02(h) + mon_c12(h),
     "C06": mon_c16,
